@@ -903,7 +903,7 @@ pub fn run(ctx: &Ctx, rep: &mut Report, prop: &str) {
         "c01" => (40_000u64, 400_000u64, 40usize),
         "c02" => (160_000, 640_000, 40),
         "c03" => (80_000, 320_000, 40),
-        "c04" => (80_000, 160_000, 30),
+        "c04" => (48_000, 120_000, 30),
         "c05" => (40_000, 160_000, 0),
         "c07" => (96_000, 400_000, 40),
         "c08" => (128_000, 512_000, 40),
